@@ -1,14 +1,20 @@
 package main
 
 import (
+	"context"
 	"flag"
 	"fmt"
 	"math"
 	"math/rand"
 	"strings"
+	"time"
 
+	"google.golang.org/grpc"
+	"google.golang.org/grpc/credentials/insecure"
 	"google.golang.org/protobuf/proto"
 
+	gpb "github.com/openconfig/gnmi/proto/gnmi"
+	fgnmi "github.com/openconfig/gnmi/testing/fake/gnmi"
 	fpb "github.com/openconfig/gnmi/testing/fake/proto"
 	"github.com/openconfig/gnmi/testing/fake/queue"
 	"verifharness/internal/trace"
@@ -218,8 +224,86 @@ func fqRun(vals []*fpb.Value, latest int64, seed int64, limit int, strs map[stri
 	return out, "limit"
 }
 
+// fqAgentRun streams the same configuration from the repository's fake gNMI agent (testing/fake/gnmi: the real
+// client.go builds the queue and injects the sync marker, agent.go serves it over gRPC) and reads the responses
+// off the wire. What the wire does not carry - the remaining repeat count, a timestamp for the sync marker - is
+// logged as -1 and not compared (the cfg event says obs = "wire").
+func fqAgentRun(vals []*fpb.Value, seed int64, limit int, strs map[string]int64) ([]fqEm, string) {
+	cp := make([]*fpb.Value, len(vals))
+	for i, v := range vals {
+		cp[i] = proto.Clone(v).(*fpb.Value)
+	}
+	a, err := fgnmi.New(&fpb.Config{Target: "t1", Seed: seed, Values: cp, ClientType: fpb.Config_GRPC_GNMI}, nil)
+	if err != nil {
+		return nil, "agent: " + err.Error()
+	}
+	defer a.Close()
+	conn, err := grpc.NewClient(a.Address(), grpc.WithTransportCredentials(insecure.NewCredentials()))
+	if err != nil {
+		return nil, "dial: " + err.Error()
+	}
+	defer conn.Close()
+	ctx, cancel := context.WithTimeout(context.Background(), 20*time.Second)
+	defer cancel()
+	stream, err := gpb.NewGNMIClient(conn).Subscribe(ctx)
+	if err != nil {
+		return nil, "subscribe: " + err.Error()
+	}
+	req := &gpb.SubscribeRequest{Request: &gpb.SubscribeRequest_Subscribe{Subscribe: &gpb.SubscriptionList{
+		Prefix: &gpb.Path{Target: "t1"}, Mode: gpb.SubscriptionList_STREAM, Subscription: []*gpb.Subscription{{Path: &gpb.Path{}}}}}}
+	if err := stream.Send(req); err != nil {
+		return nil, "send: " + err.Error()
+	}
+	var out []fqEm
+	lastTs := int64(0)
+	for len(out) < limit {
+		resp, err := stream.Recv()
+		if err != nil {
+			if ctx.Err() != nil {
+				return out, "timeout"
+			}
+			return out, "exhausted" // the agent ends the stream when its queue has run empty
+		}
+		switch {
+		case resp.GetSyncResponse():
+			out = append(out, fqEm{"sync", lastTs, 1, -1})
+		case resp.GetUpdate() != nil:
+			n := resp.GetUpdate()
+			lastTs = n.GetTimestamp()
+			for _, d := range n.GetDelete() {
+				out = append(out, fqEm{strings.Join(d.GetElement(), "/"), n.GetTimestamp(), 7, -1})
+			}
+			for _, u := range n.GetUpdate() {
+				tok := int64(-99)
+				switch x := u.GetVal().GetValue().(type) {
+				case *gpb.TypedValue_IntVal:
+					tok = x.IntVal
+				case *gpb.TypedValue_UintVal:
+					tok = int64(x.UintVal)
+				case *gpb.TypedValue_DoubleVal:
+					tok = int64(math.Round(x.DoubleVal * dblScale))
+				case *gpb.TypedValue_BoolVal:
+					if x.BoolVal {
+						tok = 1
+					} else {
+						tok = 0
+					}
+				case *gpb.TypedValue_StringVal:
+					if _, ok := strs[x.StringVal]; !ok {
+						strs[x.StringVal] = int64(len(strs) + 1)
+					}
+					tok = strs[x.StringVal]
+				}
+				out = append(out, fqEm{strings.Join(u.GetPath().GetElement(), "/"), n.GetTimestamp(), tok, -1})
+			}
+		}
+	}
+	return out, "limit"
+}
+
 func fakequeueRandom(args []string) error {
 	fs := flag.NewFlagSet("fakequeue random", flag.ContinueOnError)
+	agent := fs.Bool("agent", false, "stream the configurations from the repository's fake gNMI agent over gRPC instead of calling the queue")
 	n := fs.Int("n", 500, "configurations")
 	emit := fs.Int("emit", 60, "emissions validated per configuration")
 	out := fs.String("out", "", "output directory")
@@ -227,7 +311,11 @@ func fakequeueRandom(args []string) error {
 	if err := fs.Parse(args); err != nil {
 		return err
 	}
-	ss, err := newShards(*out, "fq", *shards)
+	pfx := "fq"
+	if *agent {
+		pfx = "fqagent"
+	}
+	ss, err := newShards(*out, pfx, *shards)
 	if err != nil {
 		return err
 	}
@@ -244,11 +332,29 @@ func fakequeueRandom(args []string) error {
 			gseed = []int64{math.MaxInt64, math.MinInt64, -1, 1 << 32}[r.Intn(4)]
 		}
 		window := *emit * 4
-		a, endA := fqRun(vals, latest, gseed, window, strs)
-		b, _ := fqRun(vals, latest, gseed, window, strs)
+		var a, b []fqEm
+		var endA string
+		obs := "full"
+		if *agent {
+			obs = "wire"
+			hasDelete := false
+			for _, v := range vals {
+				_, d := v.GetValue().(*fpb.Value_Delete)
+				hasDelete = hasDelete || d
+			}
+			_ = hasDelete
+			a, endA = fqAgentRun(vals, gseed, window, strs)
+			b, _ = fqAgentRun(vals, gseed, window, strs)
+			if endA != "limit" && endA != "exhausted" {
+				return fmt.Errorf("fake agent run failed: %s", endA)
+			}
+		} else {
+			a, endA = fqRun(vals, latest, gseed, window, strs)
+			b, _ = fqRun(vals, latest, gseed, window, strs)
+		}
 		w := ss.ws[c%len(ss.ws)]
 		recs = append(recs, fqVal{ID: "sync", Kind: "sync", Ts: latest, Repeat: 1, Val: 1, Opts: []int64{}, Pos: 1})
-		w.Emit(trace.E{"ev": "cfg", "vals": recs, "seed": gseed, "slack": 1})
+		w.Emit(trace.E{"ev": "cfg", "vals": recs, "seed": gseed, "slack": 1, "obs": obs})
 		lim := *emit
 		if len(a) < lim {
 			lim = len(a)
@@ -276,7 +382,7 @@ func fakequeueRandom(args []string) error {
 		w.Emit(trace.E{"ev": "end", "kind": kind})
 	}
 	ev := ss.close()
-	fmt.Printf("DRV fakequeue random configs=%d events=%d\n", *n, ev)
+	fmt.Printf("DRV fakequeue random configs=%d events=%d agent=%v\n", *n, ev, *agent)
 	return nil
 }
 
